@@ -6,6 +6,7 @@ package main
 import (
 	"encoding/json"
 	"fmt"
+	"runtime/debug"
 	"time"
 
 	sdkmath "cosmossdk.io/math"
@@ -53,6 +54,7 @@ type World struct {
 	// the one every returned update has been applied to)
 	delay bool
 	setAt map[int64]*tmtypes.ValidatorSet
+	db    dbm.DB // the replica's database: Restart opens a new application instance on it
 }
 
 type WorldOpts struct {
@@ -90,8 +92,8 @@ func NewWorld(o WorldOpts) *World {
 	if o.Balance == nil {
 		o.Balance = defaultBalance()
 	}
-	w := &World{enc: simapp.MakeEncodingConfig(), height: 0, now: o.T0}
-	app := simapp.NewInitApp(log.NewNopLogger(), dbm.NewMemDB(), nil, true, map[int64]bool{}, simapp.DefaultNodeHome, 5, w.enc, simtestutil.EmptyAppOptions{}, bam.SetChainID(chainID))
+	w := &World{enc: simapp.MakeEncodingConfig(), height: 0, now: o.T0, db: dbm.NewMemDB()}
+	app := simapp.NewInitApp(log.NewNopLogger(), w.db, nil, true, map[int64]bool{}, simapp.DefaultNodeHome, 5, w.enc, simtestutil.EmptyAppOptions{}, bam.SetChainID(chainID))
 	w.app = app
 	gs := simapp.NewDefaultGenesisState()
 
@@ -171,6 +173,13 @@ func (w *World) CommitSet() *tmtypes.ValidatorSet { return w.setFor(w.height) }
 // ProposerSet: the validators one of which proposes the NEXT block (BlockOpts.Proposer indexes into it)
 func (w *World) ProposerSet() *tmtypes.ValidatorSet { return w.setFor(w.height + 1) }
 
+// Restart models a node restart between two blocks: a NEW application instance is opened on the same database and
+// loads the latest committed version; everything the old instance held in memory is gone, the harness's CometBFT-side
+// bookkeeping (validator set, height, time, keys) survives.
+func (w *World) Restart() {
+	w.app = simapp.NewInitApp(log.NewNopLogger(), w.db, nil, true, map[int64]bool{}, simapp.DefaultNodeHome, 5, w.enc, simtestutil.EmptyAppOptions{}, bam.SetChainID(chainID))
+}
+
 type BlockOpts struct {
 	Absent   map[int]bool // index into current valSet
 	Proposer int          // index into current valSet; -1 = height mod n
@@ -184,6 +193,7 @@ type BlockResult struct {
 	Updates  []abci.ValidatorUpdate
 	Panicked interface{}
 	Phase    string // where it panicked: begin / mid / tx / end / commit
+	Stack    string // goroutine stack at the panic (diagnostics only)
 	AppHash  []byte
 }
 
@@ -193,6 +203,7 @@ func (w *World) Block(txs [][]byte, o BlockOpts) (br BlockResult) {
 	defer func() {
 		if r := recover(); r != nil {
 			br.Panicked = r
+			br.Stack = string(debug.Stack())
 		}
 	}()
 	w.height++
